@@ -13,6 +13,19 @@
 //!                  the same root — the minimal primitive 2N-th root found by brute force
 //!  * `contexts`    two independently constructed contexts (different scripted entropy and draws) and a
 //!                  direct `NTTTables::new` hold identical tables and transform identically
+//!
+//! Production-size sections (structured exhaustive families, O(N log N) reference `refmodel::ntt::fast_*`):
+//!  * `big-tables`      `create_ntt_tables` over every count of 1..20 (.. 65) unsorted moduli at N = 2..8192 (2^15):
+//!                      table i is the table of modulus i (root, table data), equals the direct construction and
+//!                      transforms under modulus i
+//!  * `big-lazy`        the documented input ranges of the four transforms at every N = 2..8192 (2^15): constants,
+//!                      block-alternating vectors of every block size, one-hole / one-spike vectors, boundary
+//!                      mixes, generic fills, and sums of two transforms left unreduced for every unit vector
+//!  * `big-convolution` every monomial x dense operands through the transforms, every shift 0..2N, N = 64..8192
+//!  * `big-wrappers`    the `wrappers` check over 1..10 moduli x 1..5 polynomials at N = 64..8192 and 1..20 (.. 65)
+//!                      moduli at N = 4, 8, every NTT form compared with the reference transform
+//!  * `big-contexts`    the `contexts` check on chains of 1..20 primes (N = 4, 8, 1024) and 7..17 primes at
+//!                      N = 128..8192, including every level's Bsk tables
 
 use crate::engine::*;
 use crate::he::{self, ParamSpec, Scheme};
@@ -39,6 +52,8 @@ pub fn describe(rep: &Report) {
     rep.assume("moduli per degree: the two smallest primes = 1 mod 2N and the largest one of 13, 20, 30, 40, 50, 59, 60, 61 bits; not all NTT-friendly primes");
     rep.assume("all-vectors enumeration only for tiny (N,q); beyond that unit vectors (linearity) + extreme vectors at the range maxima");
     rep.assume("composite moduli are outside the property's domain: observed, never judged");
+    rep.assume("big-* sections: reference = refmodel::ntt::fast_ntt / fast_intt (textbook radix-2 cyclic FFT over Z_q plus the psi^k twist, every product fully reduced; compared with the by-definition transform for N <= 256 in the start-up self-test), closed forms for unit vectors (ntt_unit / intt_unit) and the index shift for monomial products; structured families instead of all vectors: linearity covers the unit vectors, the range extremes are driven by constants, block patterns of every block size, boundary mixes and unreduced sums");
+    rep.assume("big-tables / big-wrappers moduli: distinct primes = 1 mod 2N of 61,30,60,40,59,50,45,35,55,25 bits taken round-robin (not sorted), big-contexts: 60,30,59,40,50,45,35,55,58,36 bits (user primes have at most 60 bits); a table 'belongs to its modulus' when root, both power tables with their quotients and 1/N are those computed for that modulus (NTTTables does not expose its modulus)");
     rep.assume("the scripted event 'all 100 draws of try_primitive_root fail' (probability 2^-100 with real randomness) is not enumerated");
 
     // composite moduli: observation only (the 'minimal root over the odd powers of a random root' is not unique there)
@@ -759,7 +774,7 @@ pub struct CCase {
 }
 
 /// all single-modulus forms of the dyadic product must agree; returns the common value
-fn dyadic_all(a: &[u64], b: &[u64], m: &Modulus, steps: &mut u64) -> Result<Vec<u64>, CaseOut> {
+fn dyadic_all(sec: &str, a: &[u64], b: &[u64], m: &Modulus, steps: &mut u64) -> Result<Vec<u64>, CaseOut> {
     let n = a.len();
     let r = guard(|| {
         let mut r1 = vec![0xDEADu64; n];
@@ -774,11 +789,11 @@ fn dyadic_all(a: &[u64], b: &[u64], m: &Modulus, steps: &mut u64) -> Result<Vec<
     });
     *steps += 4;
     match r {
-        Err(p) => Err(CaseOut::fail(format!("convolution:dyadic_product:panic:{}", panic_class(&p)), format!("no panic for reduced operands {} , {}", fmtv(a), fmtv(b)), p)),
+        Err(p) => Err(CaseOut::fail(format!("{sec}:dyadic_product:panic:{}", panic_class(&p)), format!("no panic for reduced operands {} , {}", fmtv(a), fmtv(b)), p)),
         Ok((r1, r2, r3, r4)) => {
             if r1 != r2 || r1 != r3 || r1 != r4 {
                 return Err(CaseOut::fail(
-                    "convolution:dyadic_product:forms-differ",
+                    format!("{sec}:dyadic_product:forms-differ"),
                     format!("dyadic_product, _inplace, _p, _inplace_ps agree on {} , {}", fmtv(a), fmtv(b)),
                     format!("{} / {} / {} / {}", fmtv(&r1), fmtv(&r2), fmtv(&r3), fmtv(&r4)),
                 ));
@@ -791,12 +806,13 @@ fn dyadic_all(a: &[u64], b: &[u64], m: &Modulus, steps: &mut u64) -> Result<Vec<
 /// NTT-domain product of a and b through the library, compared with `expected` (coefficient form)
 fn conv_check(run: &mut Run, m: &Modulus, class: &str, a: &[u64], fa: &[u64], b: &[u64], fb: &[u64], expected: &[u64]) -> Result<(), CaseOut> {
     let q = run.q;
+    let sec = run.sec;
     let mut steps = 0;
-    let prod = dyadic_all(fa, fb, m, &mut steps)?;
+    let prod = dyadic_all(sec, fa, fb, m, &mut steps)?;
     run.steps += steps;
     if prod.iter().zip(fa.iter().zip(fb)).any(|(&p, (&x, &y))| p != mul_mod(x, y, q)) {
         return Err(CaseOut::fail(
-            "convolution:dyadic_product:wrong",
+            format!("{sec}:dyadic_product:wrong"),
             format!("pointwise products modulo {q} of {} and {}", fmtv(fa), fmtv(fb)),
             fmtv(&prod),
         ));
@@ -804,12 +820,12 @@ fn conv_check(run: &mut Run, m: &Modulus, class: &str, a: &[u64], fa: &[u64], b:
     let mut r = prod.clone();
     let t = run.t;
     if let Err(p) = guard(|| t.inverse_ntt_negacyclic_harvey(&mut r)) {
-        return Err(CaseOut::fail(format!("convolution:inverse:{class}:panic:{}", panic_class(&p)), "no panic", p));
+        return Err(CaseOut::fail(format!("{sec}:inverse:{class}:panic:{}", panic_class(&p)), "no panic", p));
     }
     run.steps += 1;
     if r != expected {
         return Err(CaseOut::fail(
-            format!("convolution:{class}:wrong"),
+            format!("{sec}:{class}:wrong"),
             format!("N={} q={q}: intt(ntt(a) . ntt(b)) = a*b mod (X^N+1) = {} for a={} b={}", a.len(), fmtv(expected), fmtv(a), fmtv(b)),
             fmtv(&r),
         ));
@@ -984,7 +1000,7 @@ fn check_convolution(c: &CCase, seed: u64) -> CaseOut {
                 for &x in &vals {
                     let a = vec![x; vals.len()];
                     let mut steps = 0;
-                    let r = dyadic_all(&a, &vals, &m, &mut steps)?;
+                    let r = dyadic_all("convolution", &a, &vals, &m, &mut steps)?;
                     run.steps += steps;
                     for (i, &y) in vals.iter().enumerate() {
                         if r[i] != mul_mod(x, y, q) {
@@ -1035,6 +1051,11 @@ pub struct WCase {
 }
 
 fn check_wrappers(c: &WCase, seed: u64) -> CaseOut {
+    check_wrappers_in("wrappers", c, seed)
+}
+
+/// `sec` = section name used as key prefix (`wrappers`, `big-wrappers`)
+fn check_wrappers_in(sec: &'static str, c: &WCase, seed: u64) -> CaseOut {
     let tag = h64(&(seed, c.k as u64, &c.qs, c.pcount as u64, "wrappers"));
     he::env_real(seed, tag);
     let k = c.k;
@@ -1050,7 +1071,7 @@ fn check_wrappers(c: &WCase, seed: u64) -> CaseOut {
                 ms.push(m);
                 ts.push(t);
             }
-            Err(e) => return build_fail("wrappers", k, q, &e),
+            Err(e) => return build_fail(sec, k, q, &e),
         }
     }
     let l = c.qs.len();
@@ -1089,19 +1110,31 @@ fn check_wrappers(c: &WCase, seed: u64) -> CaseOut {
                 for ci in 0..c.pcount * l {
                     let t = &ts[ci % l];
                     let sl = &mut direct[ci * n..(ci + 1) * n];
-                    guard(|| f.apply(t, sl)).map_err(|pn| CaseOut::fail(format!("wrappers:{}:panic:{}", f.name(), panic_class(&pn)), "no panic for operands in range", pn))?;
+                    guard(|| f.apply(t, sl)).map_err(|pn| CaseOut::fail(format!("{sec}:{}:panic:{}", f.name(), panic_class(&pn)), "no panic for operands in range", pn))?;
                 }
-                // against the definition (moderate N only; larger N is covered by `transform`)
-                if n <= 256 {
+                // against the definition (moderate N); the sections that name another prefix (`big-wrappers`) use the
+                // O(N log N) reference transform above that (for `wrappers` itself larger N is covered by `transform`)
+                if n <= 256 || sec != "wrappers" {
                     for ci in 0..c.pcount * l {
                         let q = comp_q(ci);
-                        let ptab = rn::power_table(ts[ci % l].root(), n, q);
+                        let psi = ts[ci % l].root();
                         let xin = &x[ci * n..(ci + 1) * n];
-                        let reference = if f.forward() { rn::ntt_by_definition(xin, &ptab, q) } else { rn::intt_by_definition(xin, &ptab, q) };
+                        let reference = if n <= 256 {
+                            let ptab = rn::power_table(psi, n, q);
+                            if f.forward() {
+                                rn::ntt_by_definition(xin, &ptab, q)
+                            } else {
+                                rn::intt_by_definition(xin, &ptab, q)
+                            }
+                        } else if f.forward() {
+                            rn::fast_ntt(xin, psi, q)
+                        } else {
+                            rn::fast_intt(xin, psi, q)
+                        };
                         let o = &direct[ci * n..(ci + 1) * n];
                         if o.iter().zip(&reference).any(|(&a, &b)| a >= f.out_mult() * q || a % q != b) {
                             return Err(CaseOut::fail(
-                                format!("wrappers:{}:wrong", f.name()),
+                                format!("{sec}:{}:wrong", f.name()),
                                 format!("N={n} q={q} input {} -> {}", fmtv(xin), fmtv(&reference)),
                                 first_diff(o, &reference, q, f.out_mult()),
                             ));
@@ -1123,13 +1156,13 @@ fn check_wrappers(c: &WCase, seed: u64) -> CaseOut {
                 });
                 steps += 3;
                 match r {
-                    Err(pn) => return Err(CaseOut::fail(format!("wrappers:{}:forms:panic:{}", f.name(), panic_class(&pn)), format!("_ps/_p/component forms on {} polynomials x {} moduli without panic", c.pcount, l), pn)),
+                    Err(pn) => return Err(CaseOut::fail(format!("{sec}:{}:forms:panic:{}", f.name(), panic_class(&pn)), format!("_ps/_p/component forms on {} polynomials x {} moduli without panic", c.pcount, l), pn)),
                     Ok((a, b, d)) => {
                         for (form, o) in [("_ps", &a), ("_p", &b), ("component", &d)] {
                             if *o != direct {
                                 let at = o.iter().zip(&direct).position(|(x, y)| x != y).unwrap();
                                 return Err(CaseOut::fail(
-                                    format!("wrappers:{}:{form}:differs", f.name()),
+                                    format!("{sec}:{}:{form}:differs", f.name()),
                                     format!("polysmallmod {form} form of {} equals the NTTTables method on every component ({} polynomials x moduli {:?}, N={n})", f.name(), c.pcount, c.qs),
                                     format!("first difference at flat index {at} (component {}, coefficient {}): {} vs {}", at / n, at % n, o[at], direct[at]),
                                 ));
@@ -1192,7 +1225,7 @@ fn check_wrappers(c: &WCase, seed: u64) -> CaseOut {
             (comp, outs)
         });
         match r {
-            Err(pn) => return Err(CaseOut::fail(format!("wrappers:pointwise:panic:{}", panic_class(&pn)), "no panic for reduced operands", pn)),
+            Err(pn) => return Err(CaseOut::fail(format!("{sec}:pointwise:panic:{}", panic_class(&pn)), "no panic for reduced operands", pn)),
             Ok((comp, outs)) => {
                 // component forms against the reference
                 for ci in 0..c.pcount * l {
@@ -1205,7 +1238,7 @@ fn check_wrappers(c: &WCase, seed: u64) -> CaseOut {
                     for (name, e, o) in [("dyadic_product", &e0, &comp[0][lo..hi]), ("negacyclic_shift", &e1, &comp[1][lo..hi]), ("negacyclic_multiply_mononomial", &e2, &comp[2][lo..hi]), ("negacyclic_multiply_mononomial", &e3, &comp[3][lo..hi])] {
                         steps += 1;
                         if o != &e[..] {
-                            return Err(CaseOut::fail(format!("wrappers:{name}:wrong"), format!("N={n} q={q} shift={shift}: {}", fmtv(e)), fmtv(o)));
+                            return Err(CaseOut::fail(format!("{sec}:{name}:wrong"), format!("N={n} q={q} shift={shift}: {}", fmtv(e)), fmtv(o)));
                         }
                     }
                 }
@@ -1214,7 +1247,7 @@ fn check_wrappers(c: &WCase, seed: u64) -> CaseOut {
                     if o != comp[which] {
                         let at = o.iter().zip(&comp[which]).position(|(x, y)| x != y).unwrap();
                         return Err(CaseOut::fail(
-                            format!("wrappers:{name}:differs"),
+                            format!("{sec}:{name}:differs"),
                             format!("{name} equals the component form on every component ({} polynomials x moduli {:?}, N={n}, shift {shift})", c.pcount, c.qs),
                             format!("first difference at flat index {at} (component {}, coefficient {}): {} vs {}", at / n, at % n, o[at], comp[which][at]),
                         ));
@@ -1378,7 +1411,7 @@ pub struct XCase {
 }
 
 /// (level, modulus value, table fingerprint, transform of a fixed vector) for every table of a context
-fn context_tables(spec: &ParamSpec, seed: u64, tag: u64, probe_seed: u64) -> Result<Vec<(String, u64, u64, u64, u64)>, String> {
+fn context_tables(spec: &ParamSpec, bsk: bool, seed: u64, tag: u64, probe_seed: u64) -> Result<Vec<(String, u64, u64, u64, u64)>, String> {
     guard(|| {
         he::env_real(seed, tag);
         vh::set_nt_draws(Some(filler(tag, 1 << 14)));
@@ -1396,8 +1429,25 @@ fn context_tables(spec: &ParamSpec, seed: u64, tag: u64, probe_seed: u64) -> Res
             if spec.scheme != Scheme::CKKS && cd.qualifiers().using_batching {
                 tabs.push((format!("{name}/plain"), spec.t, cd.plain_ntt_tables()));
             }
+            if bsk {
+                let tool = cd.verif_rns_tool();
+                let base: Vec<u64> = tool.base_Bsk().base().iter().map(|m| m.value()).collect();
+                let bt = tool.base_Bsk_ntt_tables();
+                if bt.len() != base.len() {
+                    return Err(format!("{name}: {} Bsk tables for a base of {} moduli", bt.len(), base.len()));
+                }
+                for (i, (t, &q)) in bt.iter().zip(&base).enumerate() {
+                    tabs.push((format!("{name}/Bsk{i}"), q, t));
+                }
+            }
+            if cd.small_ntt_tables().len() != mods.len() {
+                return Err(format!("{name}: {} coefficient tables for {} moduli", cd.small_ntt_tables().len(), mods.len()));
+            }
             for (nm, q, t) in tabs {
                 let n = t.coeff_count();
+                if is_prime_u64(q) && pow_mod(t.root(), n as u64, q) != q - 1 {
+                    return Err(format!("{nm}: table does not belong to its modulus: root() = {} is not a primitive 2N-th root of unity modulo {q}", t.root()));
+                }
                 let x: Vec<u64> = (0..n as u64).map(|i| h64(&(probe_seed, i, q)) % q).collect();
                 let mut y = x.clone();
                 t.ntt_negacyclic_harvey(&mut y);
@@ -1417,11 +1467,16 @@ fn context_tables(spec: &ParamSpec, seed: u64, tag: u64, probe_seed: u64) -> Res
 }
 
 fn check_contexts(c: &XCase, seed: u64) -> CaseOut {
+    check_contexts_in("contexts", false, c, seed)
+}
+
+/// `sec` = section name used as key prefix; `bsk` = also the NTT tables of every level's auxiliary base Bsk (hook H5)
+fn check_contexts_in(sec: &'static str, bsk: bool, c: &XCase, seed: u64) -> CaseOut {
     let tag = h64(&(seed, &c.spec, "contexts"));
     let n = c.spec.n;
     let k = n.trailing_zeros() as usize;
-    let a = context_tables(&c.spec, seed, tag, seed);
-    let b = context_tables(&c.spec, seed ^ 0xABCD_EF01, tag.rotate_left(17) ^ 0x1234_5678, seed);
+    let a = context_tables(&c.spec, bsk, seed, tag, seed);
+    let b = context_tables(&c.spec, bsk, seed ^ 0xABCD_EF01, tag.rotate_left(17) ^ 0x1234_5678, seed);
     vh::set_nt_draws(None);
     let (a, b) = match (a, b) {
         (Ok(a), Ok(b)) => (a, b),
@@ -1430,16 +1485,18 @@ fn check_contexts(c: &XCase, seed: u64) -> CaseOut {
             let msg = format!("{:?} / {:?}", a.as_ref().err(), b.as_ref().err());
             return CaseOut::fail(
                 format!(
-                    "contexts:{}",
+                    "{sec}:{}",
                     if msg.contains("panic") {
                         format!("construct:panic:{}", panic_class(&msg))
+                    } else if msg.contains("does not belong") {
+                        "table-of-another-modulus".to_string()
                     } else if msg.contains("round trip") {
                         "roundtrip:wrong".to_string()
                     } else {
                         "construct:differs".into()
                     }
                 ),
-                format!("{}: both constructions succeed and intt(ntt(x)) = x on every table", c.spec.label()),
+                format!("{}: both constructions succeed, every table belongs to its modulus and intt(ntt(x)) = x on every table", c.spec.label()),
                 msg,
             );
         }
@@ -1448,7 +1505,7 @@ fn check_contexts(c: &XCase, seed: u64) -> CaseOut {
     if a != b {
         let at = a.iter().zip(&b).position(|(x, y)| x != y);
         return CaseOut::fail(
-            "contexts:tables-differ",
+            format!("{sec}:tables-differ"),
             format!("{}: two independently constructed contexts hold identical NTT tables and transform identically", c.spec.label()),
             format!("first difference: {:?} vs {:?} (counts {} / {})", at.map(|i| &a[i]), at.map(|i| &b[i]), a.len(), b.len()),
         );
@@ -1460,18 +1517,18 @@ fn check_contexts(c: &XCase, seed: u64) -> CaseOut {
         }
         let exp = expected_root(n, *q);
         if *root != exp {
-            return CaseOut::fail("contexts:root:not-minimal", format!("{} {nm} q={q}: root {exp}", c.spec.label()), format!("{root}"));
+            return CaseOut::fail(format!("{sec}:root:not-minimal"), format!("{} {nm} q={q}: root {exp}", c.spec.label()), format!("{root}"));
         }
         // a directly constructed table is the same object
         match build(k, *q, tag ^ 0x77) {
-            Err(e) => return build_fail("contexts", k, *q, &e),
+            Err(e) => return build_fail(sec, k, *q, &e),
             Ok((_, t)) => {
                 let x: Vec<u64> = (0..n as u64).map(|i| h64(&(seed, i, *q)) % *q).collect();
                 let mut y = x.clone();
                 let _ = guard(|| t.ntt_negacyclic_harvey(&mut y));
                 if fingerprint(&t) != *fp || h64(&y) != *img {
                     return CaseOut::fail(
-                        "contexts:direct-table-differs",
+                        format!("{sec}:direct-table-differs"),
                         format!("{} {nm} q={q}: NTTTables::new gives the context's table and the same transform", c.spec.label()),
                         format!("fingerprints {:016x} vs {fp:016x}, images {:016x} vs {img:016x}", fingerprint(&t), h64(&y)),
                     );
@@ -1481,6 +1538,476 @@ fn check_contexts(c: &XCase, seed: u64) -> CaseOut {
     }
     vh::set_nt_draws(None);
     CaseOut::pass(true, h64(&("contexts", a.len(), k)), steps)
+}
+
+// ------------------------------------------------------------------------------------------
+// production-size sections (`big-*`): every dimension the transforms, the wrappers and the table constructors loop
+// over is driven across 8 / 16 / 64 / 128 / ... / 8192 with structured exhaustive families and the O(N log N)
+// reference transform of refmodel::ntt (a textbook cyclic FFT plus twist, validated against the definition in the
+// start-up self-test)
+// ------------------------------------------------------------------------------------------
+
+/// `count` distinct primes = 1 mod 2N of the given sizes taken round-robin (deliberately NOT sorted: neighbours in the
+/// list differ by up to 36 bits, so that a table handed out for the wrong list position cannot go unnoticed)
+fn mixed_moduli(k: usize, count: usize, sizes: &[usize]) -> Vec<u64> {
+    let two_n = 2u64 << k;
+    let rounds = (count + sizes.len() - 1) / sizes.len();
+    let lists: Vec<Vec<u64>> = sizes.iter().map(|&b| primes_1_mod(two_n, b, rounds)).collect();
+    let mut v = vec![];
+    for r in 0..rounds {
+        for l in &lists {
+            if let Some(&p) = l.get(r) {
+                if !v.contains(&p) {
+                    v.push(p);
+                }
+            }
+        }
+    }
+    assert!(v.len() >= count, "not enough primes = 1 mod {two_n} for a list of {count}");
+    v.truncate(count);
+    v
+}
+
+/// moduli of the direct (NTTTables) sections: 25..61 bits
+fn many_moduli(k: usize, count: usize) -> Vec<u64> {
+    mixed_moduli(k, count, &[61, 30, 60, 40, 59, 50, 45, 35, 55, 25])
+}
+
+/// coefficient moduli of the context section: user primes have at most 60 bits (the 61-bit primes are the library's
+/// own auxiliary primes)
+fn many_ctx_moduli(k: usize, count: usize) -> Vec<u64> {
+    mixed_moduli(k, count, &[60, 30, 59, 40, 50, 45, 35, 55, 58, 36])
+}
+
+/// root, both power tables (order and quotients) and 1/N of `t` are those of the modulus q; None = all fine
+fn table_data_mismatch(t: &NTTTables, k: usize, q: u64) -> Option<(&'static str, String, String)> {
+    let n = 1usize << k;
+    if t.coeff_count() != n || t.coeff_count_power() != k || t.get_root_powers().len() != n || t.get_inv_root_powers().len() != n {
+        return Some(("size", format!("coeff_count={n} power={k}, tables of length {n}"), format!("coeff_count={} power={} lengths {} / {}", t.coeff_count(), t.coeff_count_power(), t.get_root_powers().len(), t.get_inv_root_powers().len())));
+    }
+    let psi = t.root();
+    let exp = expected_root(n, q);
+    if psi != exp {
+        return Some(("root", format!("root() = {exp}, the smallest x with x^N = -1 modulo {q}"), format!("{psi} (x^N = {} modulo {q})", pow_mod(psi % q, n as u64, q))));
+    }
+    let ptab = rn::power_table(psi, n, q);
+    let (rpw, ipw) = (t.get_root_powers(), t.get_inv_root_powers());
+    for i in 0..n {
+        let slot = rp::bit_reverse(i, k as u32);
+        let e = ptab[i];
+        if rpw[slot].operand != e || rpw[slot].quotient != quotient_of(e, q) {
+            return Some(("root_powers", format!("root_powers[brv({i})={slot}] = (psi^{i} = {e}, floor(2^64*{e}/{q}) = {})", quotient_of(e, q)), format!("({}, {})", rpw[slot].operand, rpw[slot].quotient)));
+        }
+        let (islot, ie) = if i == 0 { (0, 1 % q) } else { (i, ptab[2 * n - (rp::bit_reverse(i - 1, k as u32) + 1)]) };
+        if ipw[islot].operand != ie || ipw[islot].quotient != quotient_of(ie, q) {
+            return Some(("inv_root_powers", format!("inv_root_powers[{islot}] = psi^-(brv({islot}-1)+1) = {ie} with quotient {} modulo {q}", quotient_of(ie, q)), format!("({}, {})", ipw[islot].operand, ipw[islot].quotient)));
+        }
+    }
+    let ninv = inv_mod_u64(n as u64 % q, q).unwrap();
+    let d = t.inv_degree_modulo();
+    if d.operand != ninv || d.quotient != quotient_of(ninv, q) {
+        return Some(("inv_degree", format!("N^-1 mod {q} = {ninv}, quotient {}", quotient_of(ninv, q)), format!("({}, {})", d.operand, d.quotient)));
+    }
+    None
+}
+
+/// indices 0, 1, 2^i - 1, 2^i, 2^i + 1, N-2, N-1
+fn sparse_indices(k: usize) -> Vec<usize> {
+    let n = 1usize << k;
+    let mut js: Vec<usize> = vec![0, 1, n.saturating_sub(2), n - 1];
+    for i in 1..k {
+        js.extend([(1 << i) - 1, 1 << i, (1 << i) + 1]);
+    }
+    js.retain(|&j| j < n);
+    js.sort();
+    js.dedup();
+    js
+}
+
+// ---- section `big-tables`: create_ntt_tables over 1..20 (.. 65) moduli
+
+#[derive(Serialize, Deserialize, Clone, Debug)]
+pub struct BTCase {
+    pub k: usize,
+    pub qs: Vec<u64>,
+}
+
+fn check_bigtables(c: &BTCase, seed: u64) -> CaseOut {
+    const SEC: &str = "big-tables";
+    let tag = h64(&(seed, c.k as u64, &c.qs, SEC));
+    he::env_real(seed, tag);
+    let k = c.k;
+    let n = 1usize << k;
+    let l = c.qs.len();
+    if l == 0 || k == 0 || k > 17 || c.qs.iter().any(|&q| !is_prime_u64(q) || (q - 1) % (2 * n as u64) != 0 || q >> 61 != 0) {
+        return CaseOut::skip("moduli not primes = 1 mod 2N below 2^61");
+    }
+    let qs = c.qs.clone();
+    let made = guard(|| {
+        vh::set_nt_draws(Some(filler(tag, 64 * l + 256)));
+        let ms: Vec<Modulus> = qs.iter().map(|&q| Modulus::new(q)).collect();
+        NTTTables::create_ntt_tables(k, &ms)
+    });
+    let out = fold((|| -> Result<CaseOut, CaseOut> {
+        let shape = format!("N={n}, {l} moduli {}", fmtv(&c.qs));
+        let ts = match made {
+            Err(p) => return Err(CaseOut::fail(format!("{SEC}:create_ntt_tables:panic:{}", panic_class(&p)), format!("create_ntt_tables succeeds ({shape})"), p)),
+            Ok(Err(e)) => return Err(CaseOut::fail(format!("{SEC}:create_ntt_tables:refused"), format!("create_ntt_tables succeeds ({shape})"), e)),
+            Ok(Ok(ts)) => ts,
+        };
+        let mut steps = 1u64;
+        if ts.len() != l {
+            return Err(CaseOut::fail(format!("{SEC}:create_ntt_tables:count"), format!("{l} tables ({shape})"), format!("{} tables", ts.len())));
+        }
+        let mut top = 0u64;
+        for (i, (t, &q)) in ts.iter().zip(&c.qs).enumerate() {
+            // (1) the i-th table is the table of the i-th modulus: deterministic root, table data, 1/N
+            steps += 1;
+            if let Some((what, exp, obs)) = table_data_mismatch(t, k, q) {
+                // diagnostic only: is it the table of another list position?
+                let other = c.qs.iter().position(|&q2| q2 != q && pow_mod(t.root() % q2, n as u64, q2) == q2 - 1 && t.root() == expected_root(n, q2));
+                return Err(CaseOut::fail(
+                    format!("{SEC}:table-not-of-its-modulus:{what}"),
+                    format!("table {i} of create_ntt_tables belongs to modulus {i} = {q}: {exp} ({shape})"),
+                    format!("{obs}{}", other.map(|j| format!("; this is the root of list position {j} (modulus {})", c.qs[j])).unwrap_or_default()),
+                ));
+            }
+            // (2) identical to a directly constructed table (other random draws)
+            steps += 1;
+            match build(k, q, tag ^ (i as u64 + 1)) {
+                Err(e) => return Err(build_fail(SEC, k, q, &e)),
+                Ok((_, d)) => {
+                    if fingerprint(&d) != fingerprint(t) {
+                        return Err(CaseOut::fail(
+                            format!("{SEC}:differs-from-direct-construction"),
+                            format!("table {i} equals NTTTables::new({k}, {q}) ({shape})"),
+                            format!("fingerprints {:016x} vs {:016x}", fingerprint(t), fingerprint(&d)),
+                        ));
+                    }
+                }
+            }
+            // (3) it transforms under its modulus: lazy maxima of both directions against the reference
+            let psi = t.root();
+            let ptab = rn::power_table(psi, n, q);
+            let mut run = Run::new(SEC, q, t);
+            let j = 1 % n;
+            let mut u = vec![0u64; n];
+            u[j] = 4 * q - 1;
+            let r = rn::ntt_unit(j, 4 * q - 1, n, &ptab, q);
+            run.tj(Fun::Fwd, "unit-lazymax", &u, &r)?;
+            run.tj(Fun::FwdLazy, "unit-lazymax", &u, &r)?;
+            let mut u = vec![0u64; n];
+            u[n - 1] = 2 * q - 1;
+            let r = rn::intt_unit(n - 1, 2 * q - 1, n, &ptab, q);
+            run.tj(Fun::Inv, "unit-lazymax", &u, &r)?;
+            run.tj(Fun::InvLazy, "unit-lazymax", &u, &r)?;
+            let g4: Vec<u64> = (0..n).map(|x| h64(&(seed, x as u64, q, "bt-4q")) % (4 * q)).collect();
+            let r = rn::fast_ntt(&g4, psi, q);
+            let f = run.tj(Fun::Fwd, "generic-lazy4q", &g4, &r)?;
+            run.tj(Fun::FwdLazy, "generic-lazy4q", &g4, &r)?;
+            let g4r: Vec<u64> = g4.iter().map(|&x| x % q).collect();
+            run.tj(Fun::Inv, "roundtrip-fwd-inv", &f, &g4r)?;
+            let g2: Vec<u64> = (0..n).map(|x| h64(&(seed, x as u64, q, "bt-2q")) % (2 * q)).collect();
+            let r = rn::fast_intt(&g2, psi, q);
+            run.tj(Fun::Inv, "generic-lazy2q", &g2, &r)?;
+            run.tj(Fun::InvLazy, "generic-lazy2q", &g2, &r)?;
+            steps += run.steps;
+            top = top.max(run.lazy_top);
+        }
+        Ok(CaseOut::pass(true, h64(&(SEC, k, l, top.min(1))), steps))
+    })());
+    vh::set_nt_draws(None);
+    out
+}
+
+// ---- section `big-lazy`: the documented input ranges of the four transforms at every N
+
+#[derive(Serialize, Deserialize, Clone, Debug)]
+pub enum LPart {
+    /// structured vectors of [0, R)^N, R = documented input range of transform number `fun` (index into
+    /// [exact forward, lazy forward, exact inverse, lazy inverse])
+    Patterns { fun: usize },
+    /// sums of two transforms left unreduced, one of them the image of (q-1) X^i, i in lo..hi
+    Sums { lo: usize, hi: usize },
+    /// the same for i in {0, 1, 2^j - 1, 2^j, 2^j + 1, N-2, N-1}
+    SumsSparse,
+}
+
+#[derive(Serialize, Deserialize, Clone, Debug)]
+pub struct LCase {
+    pub k: usize,
+    pub q: u64,
+    pub part: LPart,
+}
+
+/// structured vectors of [0, mult*q)^N: (class, vector)
+fn lazy_patterns(k: usize, q: u64, mult: u64, seed: u64) -> Vec<(&'static str, Vec<u64>)> {
+    let n = 1usize << k;
+    let r = mult * q;
+    let top = r - 1;
+    let mut v: Vec<(&'static str, Vec<u64>)> = vec![];
+    for c in [top, r - q, q - 1] {
+        v.push(("const", vec![c; n]));
+    }
+    // block-alternating: blocks of 2^l entries a, b, a, b, ... for every block size (l = 0: alternating, l = k-1: halves)
+    let mut pairs: Vec<(u64, u64)> = vec![(top, 0), (0, top), (top, q), (q, top), (q - 1, 0), (0, q - 1)];
+    if mult == 4 {
+        pairs.extend([(top, 2 * q), (2 * q, top), (2 * q - 1, 2 * q)]);
+    }
+    for l in 0..k {
+        for &(a, b) in &pairs {
+            v.push(("block-alt", (0..n).map(|i| if (i >> l) & 1 == 0 { a } else { b }).collect()));
+        }
+    }
+    // every entry at the range maximum but one (and the complement: one entry at the maximum, the others q)
+    let mut holes: Vec<usize> = vec![0, 1 % n, n - 1];
+    holes.extend((1..k).map(|i| 1usize << i));
+    holes.sort();
+    holes.dedup();
+    for &j in &holes {
+        let mut x = vec![top; n];
+        x[j] = 0;
+        v.push(("one-hole", x));
+        let mut x = vec![q; n];
+        x[j] = top;
+        v.push(("one-spike", x));
+    }
+    // every entry one of the boundary values, chosen by a fixed hash
+    let alpha = [0, 1, q - 1, q, top - 1, top];
+    for salt in 0..3u64 {
+        v.push(("boundary-mix", (0..n).map(|i| alpha[(h64(&(seed, i as u64, q, salt, "c09-bmix")) % alpha.len() as u64) as usize]).collect()));
+    }
+    for salt in 0..3u64 {
+        v.push(("generic", (0..n).map(|i| h64(&(seed, i as u64, q, salt, "c09-lfill")) % r).collect()));
+    }
+    v.push(("neartop", (0..n).map(|i| top - h64(&(seed, i as u64, q, "c09-lfill2")) % q.min(1 << 16)).collect()));
+    v
+}
+
+fn check_biglazy(c: &LCase, seed: u64) -> CaseOut {
+    const SEC: &str = "big-lazy";
+    let tag = h64(&(seed, c.k as u64, c.q, SEC));
+    he::env_real(seed, tag);
+    let (k, q) = (c.k, c.q);
+    let n = 1usize << k;
+    if k == 0 || k > 17 || !is_prime_u64(q) || (q - 1) % (2 * n as u64) != 0 || q >> 61 != 0 {
+        return CaseOut::skip("modulus not a prime = 1 mod 2N below 2^61");
+    }
+    let (_m, t) = match build(k, q, tag) {
+        Ok(x) => x,
+        Err(e) => return build_fail(SEC, k, q, &e),
+    };
+    let out = fold((|| -> Result<CaseOut, CaseOut> {
+        let psi = t.root();
+        if psi != expected_root(n, q) {
+            return Err(CaseOut::fail(format!("{SEC}:root:not-minimal"), format!("N={n} q={q}: root {}", expected_root(n, q)), format!("{psi}")));
+        }
+        let mut run = Run::new(SEC, q, &t);
+        match &c.part {
+            LPart::Patterns { fun } => {
+                let Some(&f) = FUNS.get(*fun) else { return Ok(CaseOut::skip("no such transform")) };
+                for (class, x) in lazy_patterns(k, q, f.in_mult(), seed) {
+                    let reference = if f.forward() { rn::fast_ntt(&x, psi, q) } else { rn::fast_intt(&x, psi, q) };
+                    let out = run.tj(f, class, &x, &reference)?;
+                    if f == Fun::InvLazy && matches!(class, "boundary-mix" | "generic" | "const") {
+                        // a lazy inverse output is a legal input of both forward forms
+                        let xr: Vec<u64> = x.iter().map(|&v| v % q).collect();
+                        run.tj(Fun::Fwd, "roundtrip-invlazy-fwd", &out, &xr)?;
+                        run.tj(Fun::FwdLazy, "roundtrip-invlazy-fwdlazy", &out, &xr)?;
+                    }
+                }
+                let need = if f.out_mult() == 4 { 2 } else if f.out_mult() == 2 { 1 } else { 0 };
+                Ok(CaseOut::pass(run.steps > 0 && run.lazy_top >= need, h64(&(SEC, "patterns", k, 64 - q.leading_zeros(), *fun, run.lazy_top)), run.steps))
+            }
+            LPart::Sums { .. } | LPart::SumsSparse => {
+                let is: Vec<usize> = match &c.part {
+                    LPart::Sums { lo, hi } => (*lo..(*hi).min(n)).collect(),
+                    _ => sparse_indices(k),
+                };
+                let ptab = rn::power_table(psi, n, q);
+                // partners in the evaluation domain (entries in [0,q)): the library's exact image of a generic
+                // vector, and the constant q-1
+                let g: Vec<u64> = (0..n).map(|i| h64(&(seed, i as u64, q, "c09-sum-g")) % q).collect();
+                let fg = run.tj(Fun::Fwd, "operand", &g, &rn::fast_ntt(&g, psi, q))?;
+                let cst = vec![q - 1; n];
+                let icst = rn::fast_intt(&cst, psi, q);
+                // partners in the coefficient domain (entries in [0,2q)): the library's lazy inverse image of a
+                // generic vector, and the constant 2q-1
+                let gg: Vec<u64> = (0..n).map(|i| h64(&(seed, i as u64, q, "c09-sum-gg")) % q).collect();
+                let lgg = run.tj(Fun::InvLazy, "operand", &gg, &rn::fast_intt(&gg, psi, q))?;
+                let cst2 = vec![2 * q - 1; n];
+                let fcst2 = rn::fast_ntt(&cst2, psi, q);
+                let add = |a: &[u64], b: &[u64]| -> Vec<u64> { a.iter().zip(b).map(|(&x, &y)| x + y).collect() };
+                let addq = |a: &[u64], i: usize, cf: u64| -> Vec<u64> {
+                    let mut r = a.to_vec();
+                    r[i] = (r[i] % q + cf) % q;
+                    r
+                };
+                for i in is {
+                    let cf = q - 1;
+                    let mut a = vec![0u64; n];
+                    a[i] = cf;
+                    // ntt(a) + ntt(b), entries in [0, 2q): input of the inverse forms; expected a + b
+                    let fa = run.tj(Fun::Fwd, "unit", &a, &rn::ntt_unit(i, cf, n, &ptab, q))?;
+                    for (partner, coeffs) in [(&fg, &g), (&cst, &icst)] {
+                        let s = add(&fa, partner);
+                        let e = addq(coeffs, i, cf);
+                        run.tj(Fun::Inv, "sum-of-transforms", &s, &e)?;
+                        run.tj(Fun::InvLazy, "sum-of-transforms", &s, &e)?;
+                    }
+                    // intt_lazy(a) + intt_lazy(b), entries in [0, 4q): input of the forward forms; expected a + b
+                    let la = run.tj(Fun::InvLazy, "unit", &a, &rn::intt_unit(i, cf, n, &ptab, q))?;
+                    for (partner, vals) in [(&lgg, &gg), (&cst2, &fcst2)] {
+                        let s = add(&la, partner);
+                        let e = addq(vals, i, cf);
+                        run.tj(Fun::Fwd, "sum-of-lazy-inverses", &s, &e)?;
+                        run.tj(Fun::FwdLazy, "sum-of-lazy-inverses", &s, &e)?;
+                    }
+                }
+                Ok(CaseOut::pass(run.steps > 2 && run.lazy_top >= 1, h64(&(SEC, "sums", k, 64 - q.leading_zeros(), run.lazy_top)), run.steps))
+            }
+        }
+    })());
+    vh::set_nt_draws(None);
+    out
+}
+
+/// moduli of `big-lazy` for degree 2^k: the smallest prime = 1 mod 2N, the largest ones of 31 and 61 bits
+fn lazy_moduli(k: usize) -> Vec<u64> {
+    let two_n = 2u64 << k;
+    let mut x = two_n + 1;
+    while !is_prime_u64(x) {
+        x += two_n;
+    }
+    let mut v = vec![x];
+    for bits in [31usize, 61] {
+        if let Some(&p) = primes_1_mod(two_n, bits, 1).first() {
+            v.push(p);
+        }
+    }
+    v.sort();
+    v.dedup();
+    v
+}
+
+// ---- section `big-convolution`: products with every monomial and every shift at production degrees
+
+#[derive(Serialize, Deserialize, Clone, Debug)]
+pub enum BCPart {
+    /// (q-1) X^i * g through the transforms for i in lo..hi, g dense
+    Monomials { lo: usize, hi: usize },
+    /// the same for i in {0, 1, 2^j - 1, 2^j, 2^j + 1, N-2, N-1}
+    MonomialsSparse,
+    /// negacyclic_shift / monomial product forms of a generic vector for every shift in lo..hi (of 0..2N); the part
+    /// with lo = 0 also takes the all-(q-1) vector through the shifts 0, 1, 2^j - 1, 2^j, 2^j + 1, 2N-2, 2N-1
+    Shifts { lo: usize, hi: usize },
+}
+
+#[derive(Serialize, Deserialize, Clone, Debug)]
+pub struct BCCase {
+    pub k: usize,
+    pub q: u64,
+    pub part: BCPart,
+}
+
+fn check_bigconv(c: &BCCase, seed: u64) -> CaseOut {
+    const SEC: &str = "big-convolution";
+    let tag = h64(&(seed, c.k as u64, c.q, SEC));
+    he::env_real(seed, tag);
+    let (k, q) = (c.k, c.q);
+    let n = 1usize << k;
+    if k == 0 || k > 17 || !is_prime_u64(q) || (q - 1) % (2 * n as u64) != 0 || q >> 61 != 0 {
+        return CaseOut::skip("modulus not a prime = 1 mod 2N below 2^61");
+    }
+    let (m, t) = match build(k, q, tag) {
+        Ok(x) => x,
+        Err(e) => return build_fail(SEC, k, q, &e),
+    };
+    let out = fold((|| -> Result<CaseOut, CaseOut> {
+        let psi = t.root();
+        if psi != expected_root(n, q) {
+            return Err(CaseOut::fail(format!("{SEC}:root:not-minimal"), format!("N={n} q={q}: root {}", expected_root(n, q)), format!("{psi}")));
+        }
+        let mut run = Run::new(SEC, q, &t);
+        // dense operands: generic, and every coefficient q-1
+        let g: Vec<u64> = (0..n).map(|i| h64(&(seed, i as u64, q, "c09-bc-g")) % q).collect();
+        let top = vec![q - 1; n];
+        match &c.part {
+            BCPart::Monomials { .. } | BCPart::MonomialsSparse => {
+                let is: Vec<usize> = match &c.part {
+                    BCPart::Monomials { lo, hi } => (*lo..(*hi).min(n)).collect(),
+                    _ => sparse_indices(k),
+                };
+                let ptab = rn::power_table(psi, n, q);
+                let fg = run.tj(Fun::Fwd, "operand", &g, &rn::fast_ntt(&g, psi, q))?;
+                let ftop = run.tj(Fun::Fwd, "operand", &top, &rn::fast_ntt(&top, psi, q))?;
+                for i in is {
+                    let mut a = vec![0u64; n];
+                    a[i] = q - 1;
+                    let fa = run.tj(Fun::Fwd, "unit", &a, &rn::ntt_unit(i, q - 1, n, &ptab, q))?;
+                    // (q-1) X^i * b = -(X^i * b)
+                    for (b, fb) in [(&g, &fg), (&top, &ftop)] {
+                        let e = rp::pneg(&rp::pshift(b, i, q), q);
+                        conv_check(&mut run, &m, "monomial-times-dense", &a, &fa, b, fb, &e)?;
+                    }
+                }
+            }
+            BCPart::Shifts { lo, hi } => {
+                for (vi, a) in [&g, &top].into_iter().enumerate() {
+                    let shifts: Vec<usize> = if vi == 0 {
+                        (*lo..(*hi).min(2 * n)).collect()
+                    } else if *lo == 0 {
+                        sparse_indices(k + 1)
+                    } else {
+                        vec![]
+                    };
+                    for s in shifts {
+                        let e = rp::pshift(a, s, q);
+                        let coef = if s % 2 == 0 { q - 1 } else { 1 + h64(&(seed, s as u64, q, "c09-bc-mono")) % (q - 1) };
+                        let e2 = rp::pscale(&e, coef, q);
+                        let r = guard(|| {
+                            let mut r1 = vec![0xDEADu64; n];
+                            pm::negacyclic_shift(a, s, &m, &mut r1);
+                            let mut r2 = vec![0xDEADu64; n];
+                            pm::negacyclic_shift_p(a, s, n, std::slice::from_ref(&m), &mut r2);
+                            let mut r3 = vec![0xDEADu64; n];
+                            pm::negacyclic_shift_ps(a, s, 1, n, std::slice::from_ref(&m), &mut r3);
+                            let mut m1 = vec![0xDEADu64; n];
+                            pm::negacyclic_multiply_mononomial(a, coef, s, &m, &mut m1);
+                            let mut m2 = a.to_vec();
+                            pm::negacyclic_multiply_mononomial_inplace(&mut m2, coef, s, &m);
+                            let mut m3 = vec![0xDEADu64; n];
+                            pm::negacyclic_multiply_mononomials_p(a, &[coef], s, n, std::slice::from_ref(&m), &mut m3);
+                            ([r1, r2, r3], [m1, m2, m3])
+                        });
+                        run.steps += 6;
+                        match r {
+                            Err(p) => return Err(CaseOut::fail(format!("{SEC}:shift-forms:panic:{}", panic_class(&p)), format!("N={n} q={q}: X^{s} * {} and {coef}*X^{s} * .. without panic", fmtv(a)), p)),
+                            Ok((rs, ms)) => {
+                                if rs.iter().any(|r| *r != e) {
+                                    return Err(CaseOut::fail(
+                                        format!("{SEC}:negacyclic_shift:wrong"),
+                                        format!("N={n} q={q}: X^{s} * {} = {}", fmtv(a), fmtv(&e)),
+                                        format!("{} / _p {} / _ps {}", fmtv(&rs[0]), fmtv(&rs[1]), fmtv(&rs[2])),
+                                    ));
+                                }
+                                if ms.iter().any(|r| *r != e2) {
+                                    return Err(CaseOut::fail(
+                                        format!("{SEC}:mononomial:wrong"),
+                                        format!("N={n} q={q}: {coef}*X^{s} * {} = {}", fmtv(a), fmtv(&e2)),
+                                        format!("{} / inplace {} / mononomials_p {}", fmtv(&ms[0]), fmtv(&ms[1]), fmtv(&ms[2])),
+                                    ));
+                                }
+                            }
+                        }
+                    }
+                }
+            }
+        }
+        Ok(CaseOut::pass(run.steps > 0, h64(&(SEC, k, 64 - q.leading_zeros(), std::mem::discriminant(&c.part))), run.steps))
+    })());
+    vh::set_nt_draws(None);
+    out
 }
 
 // ------------------------------------------------------------------------------------------
@@ -1663,5 +2190,233 @@ pub fn sections(cfg: &RunCfg) -> Vec<Box<dyn AnySection>> {
         cases.into_iter(),
         move |c: &XCase| check_contexts(c, seed),
     ));
+
+    // ---- big-tables: create_ntt_tables over many moduli
+    let bt_kmax = if thorough { 15 } else { 13 };
+    let mut cases: Vec<BTCase> = vec![];
+    for k in 1..=bt_kmax {
+        let all = many_moduli(k, 20);
+        for l in 1..=20usize {
+            // odd counts: the first l of the mixed list; even counts: the same in reverse
+            let mut qs = all[..l].to_vec();
+            if l % 2 == 0 {
+                qs.reverse();
+            }
+            cases.push(BTCase { k, qs });
+        }
+    }
+    let bt_long: &[usize] = if thorough { &[2, 3, 6, 10, 12, 13] } else { &[2, 3, 10] };
+    for &k in bt_long {
+        let all = many_moduli(k, 65);
+        for l in [31usize, 32, 33, 63, 64, 65] {
+            cases.push(BTCase { k, qs: all[..l].to_vec() });
+        }
+    }
+    cases.sort_by_key(|c| (c.qs.len() > 20, c.k, c.qs.len()));
+    v.push(
+        E1::new(
+            "big-tables",
+            &format!(
+                "NTTTables::create_ntt_tables(k, moduli) for N = 2^k, k = 1..{bt_kmax}, and every count of 1..20 moduli (distinct primes = 1 mod 2N of 61,30,60,40,59,50,45,35,55,25 bits taken round-robin, NOT sorted; even counts in reverse), plus 31,32,33,63,64,65 moduli for k in {bt_long:?}: count of tables; table i is the table of modulus i (root = minimal primitive 2N-th root, both power tables with orders and quotients, 1/N), equals a directly constructed NTTTables::new (fingerprint), and transforms under modulus i: unit vectors at the lazy maxima 4q-1 / 2q-1 and generic vectors of [0,4q)^N / [0,2q)^N through the four transforms against the reference transform"
+            ),
+            cases.into_iter(),
+            move |c: &BTCase| check_bigtables(c, seed),
+        )
+        .deadline(std::time::Duration::from_secs(120))
+        .batch(1),
+    );
+
+    // ---- big-lazy: input ranges at every N
+    let bl_kmax = if thorough { 15 } else { 13 };
+    let bl_all_moduli = if thorough { 15 } else { 12 };
+    let bl_sums_all = if thorough { 13 } else { 10 };
+    let mut cases: Vec<LCase> = vec![];
+    for k in 1..=bl_kmax {
+        let n = 1usize << k;
+        let mut ms = lazy_moduli(k);
+        if k > bl_all_moduli {
+            // the largest (61-bit) modulus only
+            ms = vec![*ms.last().unwrap()];
+        }
+        for q in ms {
+            for fun in 0..4 {
+                cases.push(LCase { k, q, part: LPart::Patterns { fun } });
+            }
+            if k <= bl_sums_all {
+                // about 2^18 butterflies per transform call batch
+                let block = ((1usize << 18) / (n * k)).clamp(1, n);
+                let mut lo = 0;
+                while lo < n {
+                    cases.push(LCase { k, q, part: LPart::Sums { lo, hi: (lo + block).min(n) } });
+                    lo += block;
+                }
+            } else {
+                cases.push(LCase { k, q, part: LPart::SumsSparse });
+            }
+        }
+    }
+    v.push(
+        E1::new(
+            "big-lazy",
+            &format!(
+                "documented input ranges [0,4q) (forward exact / lazy) and [0,2q) (inverse exact / lazy) at N = 2^k, k = 1..{bl_kmax}; q in {{smallest prime = 1 mod 2N, largest of 31 bits, largest of 61 bits}} (k > {bl_all_moduli}: 61 bits only); per transform with range R: constants R-1, R-q, q-1; block-alternating vectors a,..,a,b,..,b of EVERY block size 2^l, l = 0..k-1, for (a,b) in {{(R-1,0),(0,R-1),(R-1,q),(q,R-1),(q-1,0),(0,q-1)}} (+ (4q-1,2q),(2q,4q-1),(2q-1,2q) forward); all entries R-1 but one 0 / all entries q but one R-1 at positions 0,1,2^i,N-1; 3 hash-chosen vectors over {{0,1,q-1,q,R-2,R-1}}; 3 generic and 1 near-top fills; lazy inverse outputs fed back to both forward forms; sums left unreduced: ntt((q-1)X^i) + {{ntt(generic), constant q-1}} in [0,2q) through both inverse forms and intt_lazy((q-1)e_i) + {{intt_lazy(generic), constant 2q-1}} in [0,4q) through both forward forms for every i in 0..N (k <= {bl_sums_all}; above: i in 0,1,2^j-1,2^j,2^j+1,N-2,N-1); reference = O(N log N) textbook transform"
+            ),
+            cases.into_iter(),
+            move |c: &LCase| check_biglazy(c, seed),
+        )
+        .deadline(std::time::Duration::from_secs(180))
+        .batch(1),
+    );
+
+    // ---- big-convolution: every monomial x dense operands, every shift, N = 64..8192
+    let bc_all = if thorough { 13 } else { 10 };
+    let mut cases: Vec<BCCase> = vec![];
+    for k in 6..=13usize {
+        let n = 1usize << k;
+        let mut ms = lazy_moduli(k);
+        if k > bc_all {
+            ms = vec![*ms.last().unwrap()];
+        }
+        for q in ms {
+            // about 2^21 coefficients per block of shifts
+            let sblock = ((1usize << 21) / n).clamp(1, 2 * n);
+            let mut lo = 0;
+            while lo < 2 * n {
+                cases.push(BCCase { k, q, part: BCPart::Shifts { lo, hi: (lo + sblock).min(2 * n) } });
+                lo += sblock;
+            }
+            if k <= bc_all {
+                let block = ((1usize << 18) / (n * k)).clamp(1, n);
+                let mut lo = 0;
+                while lo < n {
+                    cases.push(BCCase { k, q, part: BCPart::Monomials { lo, hi: (lo + block).min(n) } });
+                    lo += block;
+                }
+            } else {
+                cases.push(BCCase { k, q, part: BCPart::MonomialsSparse });
+            }
+        }
+    }
+    v.push(
+        E1::new(
+            "big-convolution",
+            &format!(
+                "N = 2^k, k = 6..13, q in {{smallest prime = 1 mod 2N, largest of 31 bits, largest of 61 bits}} (k > {bc_all}: 61 bits only): intt(ntt((q-1)X^i) . ntt(b)) = -(X^i b) for every i in 0..N (k > {bc_all}: i in 0,1,2^j-1,2^j,2^j+1,N-2,N-1) and b in {{generic, all q-1}}, the four dyadic_product forms agreeing; negacyclic_shift (3 forms) and monomial products (3 forms, coefficient q-1 / generic) of a generic vector for EVERY shift 0..2N and of the all-(q-1) vector for the shifts 0,1,2^j-1,2^j,2^j+1,2N-2,2N-1"
+            ),
+            cases.into_iter(),
+            move |c: &BCCase| check_bigconv(c, seed),
+        )
+        .deadline(std::time::Duration::from_secs(180))
+        .batch(1),
+    );
+
+    // ---- big-wrappers: _p / _ps forms over 1..10 (.. 65) components x 1..5 polynomials at N = 64..8192
+    let mut cases: Vec<WCase> = vec![];
+    // many moduli at tiny N
+    for k in [2usize, 3] {
+        let all = many_moduli(k, if thorough { 65 } else { 33 });
+        let mut counts: Vec<usize> = (1..=20).collect();
+        counts.extend([32usize, 33]);
+        if thorough {
+            counts.extend([63usize, 64, 65]);
+        }
+        for l in counts {
+            for pcount in 1..=5usize {
+                cases.push(WCase { k, qs: all[..l].to_vec(), pcount });
+            }
+        }
+    }
+    let bw_grid_kmax = if thorough { 13 } else { 10 };
+    for k in 6..=13usize {
+        let all = many_moduli(k, 10);
+        for l in 1..=10usize {
+            for pcount in 1..=5usize {
+                let diagonal = matches!((l, pcount), (1, 1) | (1, 5) | (2, 3) | (8, 2) | (9, 2) | (10, 1)) || (k <= 11 && (l, pcount) == (10, 5));
+                if k <= bw_grid_kmax || diagonal {
+                    cases.push(WCase { k, qs: all[..l].to_vec(), pcount });
+                }
+            }
+        }
+    }
+    // simplest (fewest words) first
+    cases.sort_by_key(|c| ((c.qs.len() * c.pcount) << c.k, c.k, c.qs.len(), c.pcount));
+    v.push(
+        E1::new(
+            "big-wrappers",
+            &format!(
+                "the `wrappers` check (polysmallmod ntt/ntt_lazy/intt/intt_lazy, dyadic_product*, negacyclic_shift*, negacyclic_multiply_mononomial(s)* in component, _p and _ps form; operands at the range maxima and generic) with the NTT forms of every component compared with the reference transform at every N: N = 4, 8 x every count of 1..20, 32, 33{} moduli x 1..5 polynomials; N = 64..{} x every count of 1..10 moduli x 1..5 polynomials{}; moduli = distinct primes = 1 mod 2N of 61,30,60,40,59,50,45,35,55,25 bits round-robin",
+                if thorough { ", 63, 64, 65" } else { "" },
+                1usize << bw_grid_kmax,
+                if thorough { "" } else { "; N = 2048..8192 x (moduli, polynomials) in {(1,1),(1,5),(2,3),(8,2),(9,2),(10,1)} (+ (10,5) up to N = 2048)" }
+            ),
+            cases.into_iter(),
+            move |c: &WCase| check_wrappers_in("big-wrappers", c, seed),
+        )
+        .deadline(std::time::Duration::from_secs(180))
+        .batch(1),
+    );
+
+    // ---- big-contexts: long modulus chains
+    let mut cases: Vec<XCase> = vec![];
+    let mut push = |k: usize, l: usize, s: Scheme| {
+        let n = 1usize << k;
+        let q = many_ctx_moduli(k, l);
+        let t = if s == Scheme::CKKS { 0 } else { he::ntt_primes(n, 20.max(k + 3), 1)[0] };
+        cases.push(XCase { spec: ParamSpec::new(s, n, q, t) });
+    };
+    for k in [2usize, 3] {
+        for l in 1..=20usize {
+            for s in [Scheme::BFV, Scheme::CKKS] {
+                push(k, l, s);
+            }
+            if matches!(l, 1 | 2 | 7 | 8 | 9 | 15 | 16 | 17 | 18) {
+                push(k, l, Scheme::BGV);
+            }
+        }
+    }
+    if thorough {
+        for l in 1..=20usize {
+            for s in [Scheme::BFV, Scheme::BGV, Scheme::CKKS] {
+                push(10, l, s);
+            }
+        }
+        for k in [7usize, 11, 12, 13] {
+            for l in [7usize, 8, 9, 16, 17] {
+                push(k, l, Scheme::BFV);
+                push(k, l, Scheme::CKKS);
+            }
+        }
+    } else {
+        for (k, l, s) in [
+            (10usize, 7usize, Scheme::BFV),
+            (10, 8, Scheme::BFV),
+            (10, 9, Scheme::CKKS),
+            (10, 10, Scheme::BGV),
+            (10, 16, Scheme::CKKS),
+            (10, 17, Scheme::BFV),
+            (7, 9, Scheme::BFV),
+            (11, 9, Scheme::CKKS),
+            (12, 9, Scheme::BFV),
+        ] {
+            push(k, l, s);
+        }
+    }
+    v.push(
+        E1::new(
+            "big-contexts",
+            &format!(
+                "the `contexts` check (two contexts built under different scripted entropy / draws and a direct NTTTables::new hold identical tables; every table belongs to its modulus, root minimal, generic round trip) extended by every level's Bsk tables (RNSTool::base_Bsk_ntt_tables, hook H5), on long chains: N = 4, 8 x every count of 1..20 coefficient primes (30..60 bits, round-robin, not sorted) x BFV, CKKS (BGV for 1,2,7,8,9,15..18); {}",
+                if thorough {
+                    "N = 1024 x 1..20 primes x BFV, BGV, CKKS; N = 128, 2048, 4096, 8192 x {7,8,9,16,17} primes x BFV, CKKS"
+                } else {
+                    "N = 1024 x {7 BFV, 8 BFV, 9 CKKS, 10 BGV, 16 CKKS, 17 BFV}, N = 128 x 9 BFV, N = 2048 x 9 CKKS, N = 4096 x 9 BFV"
+                }
+            ),
+            cases.into_iter(),
+            move |c: &XCase| check_contexts_in("big-contexts", true, c, seed),
+        )
+        .deadline(std::time::Duration::from_secs(180))
+        .batch(1),
+    );
     v
 }
